@@ -52,12 +52,14 @@ package p9p
 //@ ensures accepts_exactly: err == nil <==> VALID && NOCLIMB
 //@ ensures rejected_unchanged: err != nil ==> result0 == dir && typeis(err, MessageRerror)
 //@ ensures resolved: err == nil ==> result0 == path.Join(dir, path.Join(names))
+//@ ensures frame: preserved("E:string")
 
 //@ func CreateName
 //@ property C16 C15
 //@ ensures accepts_exactly: err == nil <==> plain(name)
 //@ ensures rejected: err != nil ==> result0 == "" && typeis(err, MessageRerror)
 //@ ensures resolved: err == nil ==> result0 == path.Join(dir, name)
+//@ ensures frame: preserved("E:string")
 
 //@ func ToWalk
 //@ property C16
